@@ -390,7 +390,9 @@ def main(argv=None):
                 except Exception as e:  # not representable in the model
                     t = None
                     hist["unmodelled:" + kind] = hist.get("unmodelled:" + kind, 0) + 1
-                if t is not None:
+                if isinstance(t, list):
+                    items.extend((i, x) for x in t)
+                elif t is not None:
                     items.append((i, t))
         n_nontrivial = len(nt)
         ok2, out2 = make(["Corr/%s.vo" % pid, "Corr/Common.vo"])
